@@ -4,7 +4,7 @@ base=$1; shift
 for p in "$@"; do
   for x in A B C; do
     [ -f $base$p/BENIGN/$x/patch.diff ] || continue
-    python3 /verif/tools/benign.py $p $base$p $x 2>&1 | python3 -c "
+    python3 $(dirname $0)/benign.py $p $base$p $x 2>&1 | python3 -c "
 import json,sys
 try:
     r=json.load(sys.stdin); print(r['id'],'confirmed',r.get('confirmed'),'quiet',r.get('quiet'), r.get('error',''))
